@@ -121,13 +121,13 @@ Proof.
 Qed.
 Print Assumptions C15_from_substrings_suffix_lang.
 
-(* "contains one of the patterns": needs the patterns to be over the alphabet - see the refuted instance below *)
+(* "contains one of the patterns": likewise for ALL pattern lists, symbols outside the alphabet included (the end state
+   is labelled with the number of trie nodes, as the repaired code does: end_state = len(labels)) *)
 Theorem C15_from_substrings_lang : forall syms pats contains, NoDup syms ->
-  (forall p, In p pats -> word_over syms p) ->
   exists m, ac_dfa syms pats contains false = Ok m /\ valid_dfa m = true /\
             L_dfa m =L promised syms contains (contains_any pats).
 Proof.
-  intros syms pats c Hnd Ho. destruct (ac_dfa_substring_correct syms pats c Hnd Ho) as [m [E [V A]]].
+  intros syms pats c Hnd. destruct (ac_dfa_substring_correct syms pats c Hnd) as [m [E [V A]]].
   exists m. split; [exact E|]. split; [exact V|].
   apply (promised_lang _ syms c (contains_any pats) (anysubb pats)); [intro w; apply anysubb_spec|exact A].
 Qed.
@@ -135,11 +135,10 @@ Print Assumptions C15_from_substrings_lang.
 
 (* the iteration order of the pattern set (and repetitions) cannot be observed in the language *)
 Theorem C15_from_substrings_order_independent : forall syms pats pats' contains ms, NoDup syms ->
-  (forall p, In p pats <-> In p pats') -> (forall p, In p pats -> word_over syms p) ->
+  (forall p, In p pats <-> In p pats') ->
   exists m m', ac_dfa syms pats contains ms = Ok m /\ ac_dfa syms pats' contains ms = Ok m' /\ L_dfa m =L L_dfa m'.
 Proof.
-  intros syms pats pats' c ms Hnd Hsame Ho.
-  assert (Ho' : forall p, In p pats' -> word_over syms p) by (intros p Hp; apply Ho, Hsame; exact Hp).
+  intros syms pats pats' c ms Hnd Hsame.
   destruct ms.
   - destruct (C15_from_substrings_suffix_lang syms pats c Hnd) as [m [E [_ L]]].
     destruct (C15_from_substrings_suffix_lang syms pats' c Hnd) as [m' [E' [_ L']]].
@@ -147,8 +146,8 @@ Proof.
     assert (H : (exists p, In p pats /\ has_suffix p w) <-> (exists p, In p pats' /\ has_suffix p w)).
     { split; intros [p [Hp Hs]]; exists p; (split; [apply Hsame; exact Hp|exact Hs]). }
     destruct c; simpl; rewrite H; reflexivity.
-  - destruct (C15_from_substrings_lang syms pats c Hnd Ho) as [m [E [_ L]]].
-    destruct (C15_from_substrings_lang syms pats' c Hnd Ho') as [m' [E' [_ L']]].
+  - destruct (C15_from_substrings_lang syms pats c Hnd) as [m [E [_ L]]].
+    destruct (C15_from_substrings_lang syms pats' c Hnd) as [m' [E' [_ L']]].
     exists m, m'. split; [exact E|]. split; [exact E'|]. intro w. rewrite (L w), (L' w). unfold promised, contains_any.
     assert (H : (exists p, In p pats /\ contains_substring p w) <-> (exists p, In p pats' /\ contains_substring p w)).
     { split; intros [p [Hp Hs]]; exists p; (split; [apply Hsame; exact Hp|exact Hs]). }
@@ -164,13 +163,15 @@ Theorem C15_aho_corasick_links : forall pats, (forall p, In p pats -> p <> []) -
 Proof. exact ac_trie_ok. Qed.
 Print Assumptions C15_aho_corasick_links.
 
-(* GENUINE DEFECT of the code, visible in the faithful model: a pattern with a symbol outside the alphabet leaves
-   trie nodes unvisited by the goto loop, `end_state = len(transitions)` then collides with the label of a
-   visited node.  Alphabet {0}, patterns 11 and 00 (in this order), contains, not must_be_suffix: the word 0
-   is accepted although neither pattern occurs in it.  (DFA.from_substrings({"a"}, {"bb","aa"}) accepts "a".) *)
-Example C15_from_substrings_foreign_symbol_refuted :
-  exists m, ac_dfa [0] [[1;1];[0;0]] true false = Ok m /\ dfa_acc m [0] = true /\ anysubb [[1;1];[0;0]] [0] = false.
-Proof. eexists. split; [vm_compute; reflexivity|]. vm_compute. split; reflexivity. Qed.
+(* the input on which the code was wrong before the repair `end_state = len(labels)` (fix commit ae299fb): alphabet {0},
+   patterns 11 and 00 in this order - the nodes of 1 and 11 are never visited by the goto loop, len(transitions) = 3 was
+   the label of the node of 0.  Now the end state is 5 and the word 0 is rejected, 00 accepted. *)
+Example C15_from_substrings_foreign_symbol :
+  ac_dfa [0] [[1;1];[0;0]] true false =
+    Ok (mkdfa [0;3;4;5] [0] [(0,[(0,3)]); (3,[(0,4)]); (4,[(0,5)]); (5,[(0,5)])] 0 [4;5] false) /\
+  (exists m, ac_dfa [0] [[1;1];[0;0]] true false = Ok m /\ dfa_acc m [0] = false /\ dfa_acc m [0;0] = true /\
+             dfa_acc m [0;0;0] = true /\ anysubb [[1;1];[0;0]] [0] = false).
+Proof. vm_compute. split; [reflexivity|]. eexists. repeat split. Qed.
 
 (* ---- of_length: counted symbols (all symbols when symbols_to_count is None) in [lo, hi] ---- *)
 Theorem C15_of_length_lang : forall syms lo hi cnt,
